@@ -23,4 +23,22 @@ def hasBuiltin (c : Caps) (b : String) : Bool := c.builtins.contains b
 def hasObjectKeys (c : Caps) : Bool := hasBuiltin c "object.keys"
 def hasStringsCount (c : Caps) : Bool := hasBuiltin c "strings.count"
 
+/-- the gating table: rule (category, title) and the condition under which the target LACKS what the rule's advice
+needs, i.e. under which the rule must be skipped with a notice of severity ≠ none (read off the rules' documentation
+and `notices` clauses; severity-none notices — "obsolete since OPA 1.0" — are a different mechanism) -/
+def gatingTable : List ((String × String) × (Caps → Bool)) :=
+  [ (("idiomatic", "use-strings-count"),        fun c => !hasStringsCount c),
+    (("idiomatic", "custom-has-key-construct"), fun c => !hasObjectKeys c),
+    (("bugs", "sprintf-arguments-mismatch"),    fun c => !hasBuiltin c "sprintf"),
+    (("bugs", "if-object-literal"),             fun c => !hasIf c),
+    (("bugs", "if-empty-object"),               fun c => !hasIf c),
+    (("custom", "one-liner-rule"),              fun c => !hasIf c),
+    (("idiomatic", "use-if"),                   fun c => !hasIf c),
+    (("idiomatic", "use-contains"),             fun c => !hasContains c),
+    (("imports", "use-rego-v1"),                fun c => !hasRegoV1Feature c && !isOpaV1 c) ]
+
+/-- the rules of the table that must be skipped for target capabilities `c` -/
+def mustSkip (c : Caps) : List (String × String) :=
+  (gatingTable.filter fun e => e.2 c).map (·.1)
+
 end RegalModel.Caps
